@@ -507,6 +507,7 @@ type Contract struct {
 	Producer  bool   // verify the closure as a Seq producer
 	CloInv    map[int][]*Clause // closure ordinal → invariants on captured cells
 	AssumeRet []*Clause
+	YieldReq  []*SinkRule // yield-requires(a, b) E
 }
 
 type SpecFunc struct {
@@ -546,6 +547,7 @@ type ContractSet struct {
 	Files   []string
 	Scan    []string // lines containing assume/trusted/axiom for the report
 	PkgMode map[string]PkgMode
+	ObjInvs map[string][]*Clause // pkgpath.TypeName → invariants over `self`
 }
 
 type PkgMode struct {
@@ -554,14 +556,14 @@ type PkgMode struct {
 }
 
 func NewContractSet() *ContractSet {
-	return &ContractSet{Funcs: map[string]*Contract{}, Specs: map[string]*SpecFunc{}, Guarded: map[string]string{}, Immut: map[string]bool{}, PkgMode: map[string]PkgMode{}}
+	return &ContractSet{Funcs: map[string]*Contract{}, Specs: map[string]*SpecFunc{}, Guarded: map[string]string{}, Immut: map[string]bool{}, PkgMode: map[string]PkgMode{}, ObjInvs: map[string][]*Clause{}}
 }
 
 var clauseKeywords = map[string]bool{
 	"func": true, "requires": true, "ensures": true, "loop": true, "modifies": true, "trusted": true,
 	"pure": true, "inline": true, "noinline": true, "strings": true, "bytes": true, "panics": true, "bind": true, "sink": true,
 	"axiom": true, "log": true, "atomic": true, "guarded_by": true, "immutable": true, "must-close": true,
-	"opaque": true, "unroll": true, "producer": true, "closure": true, "package": true, "assume-return": true,
+	"opaque": true, "unroll": true, "yield-requires": true, "invariant": true, "producer": true, "closure": true, "package": true, "assume-return": true,
 }
 
 // LoadContractFile parses one contracts_verif.go file (or any file with //@ lines).
@@ -607,6 +609,9 @@ func (cs *ContractSet) LoadContractFile(path, pkgPath string) error {
 		word, rest := t, ""
 		if j := strings.IndexAny(t, " \t"); j >= 0 {
 			word, rest = t[:j], strings.TrimSpace(t[j+1:])
+		}
+		if strings.HasPrefix(word, "yield-requires(") {
+			word = "yield-requires"
 		}
 		label := ""
 		if j := strings.IndexByte(word, '['); j >= 0 && strings.HasSuffix(word, "]") {
@@ -696,6 +701,23 @@ func (cs *ContractSet) LoadContractFile(path, pkgPath string) error {
 			} else {
 				cur.Invs[n] = append(cur.Invs[n], c)
 			}
+		case "yield-requires":
+			// yield-requires(a, b) E   (first token carries the parameter list)
+			full := t[len("yield-requires"):]
+			close := strings.IndexByte(full, ')')
+			if !strings.HasPrefix(full, "(") || close < 0 {
+				return fmt.Errorf("%s:%d: bad yield-requires", path, it.line)
+			}
+			sr := &SinkRule{Method: "yield"}
+			for _, pn := range strings.Split(full[1:close], ",") {
+				sr.Params = append(sr.Params, strings.TrimSpace(pn))
+			}
+			c, err := mkClause("requires", strings.TrimSpace(full[close+1:]))
+			if err != nil {
+				return err
+			}
+			sr.Req = append(sr.Req, c)
+			cur.YieldReq = append(cur.YieldReq, sr)
 		case "unroll":
 			parts := strings.Fields(rest)
 			if len(parts) == 2 {
@@ -743,6 +765,18 @@ func (cs *ContractSet) LoadContractFile(path, pkgPath string) error {
 			} else if cur != nil {
 				cur.Pure = true
 			}
+		case "invariant":
+			// invariant (*T) E   — object invariant over `self`
+			close := strings.IndexByte(rest, ')')
+			if !strings.HasPrefix(rest, "(") || close < 0 {
+				return fmt.Errorf("%s:%d: bad invariant", path, it.line)
+			}
+			tn := strings.TrimPrefix(rest[1:close], "*")
+			c, err := mkClause("invariant", strings.TrimSpace(rest[close+1:]))
+			if err != nil {
+				return err
+			}
+			cs.ObjInvs[pkgPath+"."+tn] = append(cs.ObjInvs[pkgPath+"."+tn], c)
 		case "axiom":
 			c, err := mkClause("axiom", rest)
 			if err != nil {
